@@ -3,14 +3,15 @@
 Seam      django_components.util.template_parser.parse_template(src) (the function the
           patched Template.compile_nodelist feeds to Django's Parser) and, part B, the
           public route Template(src) with a debug and a non-debug engine.
-Alphabet  32 source fragments (FRAGMENT_NAMES): text, newline, {{ }}, {# #}, {% %} tags with
+Alphabet  34 source fragments (FRAGMENT_NAMES): text, newline, {{ }}, {# #}, {% %} tags with
           0..2 quoted strings (both quote kinds, escaped quote, string ending in an escaped
           backslash `"q\\\\"` / `'q\\\\'` - closing quote after an even run of backslashes -,
           embedded `%}` / `}}` / newline), a multi-line tag, verbatim openers / closers (plain,
           named, quoted name after a space / a tab / a newline - stock Django enters verbatim
           mode only for contents[:9] in ("verbatim", "verbatim "), so only the space form
           does), a multi-line tag whose only quotes sit on a continuation line with `%}` inside the
-          string, a lone `%` directly before the closing `%}` / before a quote, unterminated constructs.  The fragments are uniquely decodable, so fragment
+          string, a lone `%` directly before the closing `%}` / before a quote / before the first quote of a tag
+          with an in-string `%}`, a backslash-newline inside a string, unterminated constructs.  The fragments are uniquely decodable, so fragment
           sequences are distinct sources.
 Bound     every sequence of <= L fragments (quick L=4 lexer + L=3 public route; thorough
           L=5 + L=4) plus every sequence of exactly L+1 fragments over the 11-fragment
@@ -81,6 +82,7 @@ FRAGMENT_NAMES = [
     "TAG_DQ_ENDS_ESC_BACKSLASH", "TAG_SQ_ENDS_ESC_BACKSLASH",
     "VERBATIM_TAB_DQ", "VERBATIM_NL_DQ", "ENDVERBATIM_TAB_DQ", "ENDVERBATIM_NL_DQ",
     "TAG_NL_DQ_CLOSE_INSIDE", "TAG_DQ_PERCENT_CLOSE", "TAG_PERCENT_DQ",
+    "TAG_DQ_BACKSLASH_NL", "TAG_PERCENT_DQ_CLOSE_INSIDE",
 ]
 # every sequence of exactly L+1 fragments over this sub-alphabet is added to the full enumeration <= L
 DEEP = ["T", "NL", "VAR", "TAG", "TAG_DQ", "TAG_DQ_CLOSE_INSIDE", "TAG_MULTILINE_DQ", "TAG_DQ_CLOSE_NL_INSIDE", "VERBATIM", "ENDVERBATIM", "TAG_DQ_OPEN"]
@@ -126,6 +128,10 @@ def alphabet(seed: int):
         # a lone `%%` directly followed by the closing `%%}` / by a quote, inside a tag that has a quoted string
         '{%% %s "%s" %s%%%%}' % (a, q, r),
         '{%% %s %s%%"%s" %%}' % (a, r, q),
+        # a backslash directly followed by a newline inside a quoted string (the escape covers the newline)
+        '{%% %s "%s\\\n%s" %%}' % (a, q, r),
+        # a lone `%%` before the first quote of the tag, and `%%}` inside the string
+        '{%% %s %s%% "%s%%}%s" %%}' % (a, r, q, r),
     ]
     assert len(A) == len(FRAGMENT_NAMES)
     return A
